@@ -24,7 +24,9 @@
      ranges, arrays, strings and maps, break.  C02_soundness_modulo_overflow_partial:
      no run ends in an internal error, and the only host crash is the stack
      overflow of String/Equals/deepCopy on a value that contains itself.
-   Outside both: event handlers, the test built-in and the un-modelled built-ins.  The full statement [soundness_full] is REFUTED
+   Event handlers (C02_handlers_partial, C02_handlers_modulo_overflow_partial): an event
+   delivered in the state a normally ended run (or an earlier event) leaves is handled
+   without going wrong.  Outside both fragments: the test built-in and the un-modelled built-ins.  The full statement [soundness_full] is REFUTED
    on the model (and on the implementation): C02_soundness_full_refuted. *)
 From Coq Require Import ZArith NArith List String Bool.
 From EvyV Require Import Base Num Ast Omap Sem Static SemSound.
@@ -56,6 +58,38 @@ Theorem C02_soundness_modulo_overflow_partial : forall P,
   forall fuel s0, start_ok false P s0 -> ~ goes_wrong_badly (fst (run_program fuel P s0)).
 Proof. exact soundness_stage2. Qed.
 Print Assumptions C02_soundness_modulo_overflow_partial.
+
+(* ---------- proved: event handlers ---------- *)
+(* the state a normally ended run leaves is again a well-typed start state ... *)
+Theorem C02_run_leaves_start_state : forall strict P,
+  wt_program P = true -> frag strict P = true ->
+  forall fuel s0, start_ok strict P s0 ->
+    (forall e, fst (run_program fuel P s0) <> OErr e) -> start_ok strict P (snd (run_program fuel P s0)).
+Proof. exact run_leaves_start_ok. Qed.
+Print Assumptions C02_run_leaves_start_state.
+
+(* ... and an event delivered in such a state to a handler of the program, with at least as many
+   payload values as the handler has parameters, is handled without going wrong and leaves such a
+   state again (Evaluator.HandleEvent; frag true = s1_program, frag false = s2_program) *)
+Theorem C02_handlers_partial : forall P,
+  wt_program P = true -> s1_program P = true ->
+  forall fuel name args s0 h, start_ok true P s0 ->
+    find_handler name (p_handlers P) = Some h -> (List.length (h_params h) <= List.length args)%nat ->
+    ~ goes_wrong (fst (handle_event fuel P name args s0)) /\
+    ((forall e, fst (handle_event fuel P name args s0) <> OErr e) ->
+     start_ok true P (snd (handle_event fuel P name args s0))).
+Proof. exact handlers_stage1. Qed.
+Print Assumptions C02_handlers_partial.
+
+Theorem C02_handlers_modulo_overflow_partial : forall P,
+  wt_program P = true -> s2_program P = true ->
+  forall fuel name args s0 h, start_ok false P s0 ->
+    find_handler name (p_handlers P) = Some h -> (List.length (h_params h) <= List.length args)%nat ->
+    ~ goes_wrong_badly (fst (handle_event fuel P name args s0)) /\
+    ((forall e, fst (handle_event fuel P name args s0) <> OErr e) ->
+     start_ok false P (snd (handle_event fuel P name args s0))).
+Proof. exact handlers_stage2. Qed.
+Print Assumptions C02_handlers_modulo_overflow_partial.
 
 (* the start states of Evaluator.Eval are well typed (for both fragments), whatever
    the stop point, the input, and the two flags *)
@@ -208,6 +242,27 @@ Example C02_ex_funcs_run :
   o = ODone /\
   match st_trace s with
   | EvPrint p :: _ => pieces_str p = Some (s_ "120 6" ++ [10%N])
+  | _ => False end.
+Proof. vm_compute. split; reflexivity. Qed.
+
+(*  x := 0 / on key k:string / x = x + 1 / print k x / end  *)
+Definition ex_handler : program :=
+  {| p_funcs := [];
+     p_handlers :=
+       [{| h_name := s_ "key"; h_params := [(s_ "k", TStr)];
+           h_body := [SAssign (v_ "x" TNum) (EBin BPlus TNum (v_ "x" TNum) n1);
+                      SCallStmt (s_ "print") [EAny (v_ "k" TStr) TStr; EAny (v_ "x" TNum) TNum]] |}];
+     p_stmts := [SDecl (s_ "x") TNum n0; SNop] |}.
+
+Example C02_ex_handler_hyps : wt_program ex_handler = true /\ s1_program ex_handler = true.
+Proof. vm_compute. split; reflexivity. Qed.
+
+Example C02_ex_handler_run :
+  let s1 := snd (run_program 100 ex_handler s0_) in
+  let '(o, s2) := handle_event 100 ex_handler (s_ "key") [PvStr (s_ "a")] s1 in
+  o = ODone /\
+  match st_trace s2 with
+  | EvPrint p :: _ => pieces_str p = Some (s_ "a 1" ++ [10%N])
   | _ => False end.
 Proof. vm_compute. split; reflexivity. Qed.
 
